@@ -167,6 +167,17 @@ pub fn check_spec(spec: &RuleSpec, level: u8, doc_cap: usize, order_cap: u64) ->
         let m = eng::matches(&rule, d);
         let v = ex.base.val3(d).unwrap_or(2);
         st.transitions += 2;
+        // the other public entry points onto the same solver must agree with Rule::matches
+        let via_core = crate::report::catch(|| tau_engine::core::solve_expression(&rule.detection.expression, &rule.detection.identifiers, d));
+        let via_solve = crate::report::catch(|| tau_engine::solve(&rule.detection, d));
+        st.transitions += 2;
+        if via_core != m || via_solve != m {
+            st.push_violation(Violation {
+                signature: "public-solve-entry-points-disagree-with-Rule::matches".into(),
+                witness: format!("matches={:?} core::solve_expression={:?} solve={:?} ; rule {} doc {}", m, via_core, via_solve, one_line(&yaml), d.show()),
+                replay: replay_json(&yaml, 0, &[], Some(d)),
+            });
+        }
         match m {
             Ok(b) => {
                 if b != (v == 1) {
